@@ -22,6 +22,7 @@ structure Kase where
   input : List Nat
   behaviour : String
   k : Nat
+  badopts : Bool := false
   deriving Repr
 
 structure Obs where
@@ -32,6 +33,7 @@ structure Obs where
   idem : String
   ret : String
   released : String
+  closeerr : String
   leak : List String
   deriving Repr
 
@@ -50,7 +52,8 @@ def kaseOf (s : Sexp) : Option Kase :=
     let cons := field "consumer" fs
     some { construct := first (atomsOf (field "construct" fs)) "", workers := (natsOf (field "workers" fs)).headD 1,
            buf := (natsOf (field "buf" fs)).headD 0, input := natsOf (field "input" fs),
-           behaviour := first (atomsOf cons) "exhaust", k := (natsOf cons.tail).headD 0 }
+           behaviour := first (atomsOf cons) "exhaust", k := (natsOf cons.tail).headD 0,
+           badopts := (natsOf (field "badopts" fs)).headD 0 != 0 }
   | _ => none
 
 def obsOf (s : Sexp) : Option Obs :=
@@ -59,7 +62,8 @@ def obsOf (s : Sexp) : Option Obs :=
     some { seen := (field "seen" fs).map (fun l => natsOf l.items), calls := natsOf (field "calls" fs),
            ends := atomsOf (field "end" fs), after := first (atomsOf (field "after" fs)) "none",
            idem := first (atomsOf (field "idem" fs)) "none", ret := first (atomsOf (field "ret" fs)) "none",
-           released := first (atomsOf (field "released" fs)) "none", leak := atomsOf (field "leak" fs) }
+           released := first (atomsOf (field "released" fs)) "none",
+           closeerr := first (atomsOf (field "closeerr" fs)) "none", leak := atomsOf (field "leak" fs) }
   | _ => none
 
 /-- which shape a construct instantiates, with which parameters (the table in FunModel/Pipe.lean) -/
@@ -71,13 +75,15 @@ def shapeOf (k : Kase) : Option Shape :=
   | "bchan" => some (.feeder { cap := k.buf, onceGo := false, srcChecksCtx := true, eager := true })
   | "dtmap" | "adtmap" => some (.feeder { cap := 0, onceGo := false, srcChecksCtx := false, eager := false })
   | "merge" => some (.fanIn { cap := 0, srcChecksCtx := true, closerCtx := true } n false)
-  | "genpar" | "itgen" => some (.fanIn { cap := 2 * n + 1, srcChecksCtx := true, closerCtx := true } n true)
+  | "genpar" | "itgen" => some (.fanIn { cap := 2 * n + 1, srcChecksCtx := true, closerCtx := true, invalid := k.badopts } n true)
   | "split" | "chanread" =>
     some (.fanOut { n := n, hasOut := false, outCap := 0, hasCloser := false, closerCtx := false, onceGo := false, lazy := false, workerCancels := false })
   | "pp" | "pfe" | "worker" =>
-    some (.fanOut { n := n, hasOut := false, outCap := 0, hasCloser := true, closerCtx := false, onceGo := false, lazy := false, workerCancels := false })
+    some (.fanOut { n := n, hasOut := false, outCap := 0, hasCloser := true, closerCtx := false, onceGo := false, lazy := false, workerCancels := false,
+                    invalid := k.badopts })
   | "map" | "itmap" =>
-    some (.fanOut { n := n, hasOut := true, outCap := 0, hasCloser := true, closerCtx := true, onceGo := false, lazy := true, workerCancels := true })
+    some (.fanOut { n := n, hasOut := true, outCap := 0, hasCloser := true, closerCtx := true, onceGo := false, lazy := true, workerCancels := true,
+                    invalid := k.badopts })
   | "pbuf" =>
     some (.fanOut { n := n, hasOut := true, outCap := k.workers, hasCloser := true, closerCtx := false, onceGo := true, lazy := true, workerCancels := false })
   | _ => none
@@ -93,9 +99,10 @@ def multiConsumer (k : Kase) : Bool := k.construct == "split" || k.construct == 
 
 /-- the run ended by exhaustion (nothing stopped it from outside) -/
 def failureFreeCase (k : Kase) (o : Obs) : Bool :=
-  k.behaviour == "exhaust" || k.behaviour == "blockedclose" || k.behaviour == "blockedcancel" ||
+  !k.badopts &&
+  (k.behaviour == "exhaust" || k.behaviour == "blockedclose" || k.behaviour == "blockedcancel" ||
   ((k.behaviour == "close" || k.behaviour == "closecancel" || k.behaviour == "cancel") && o.seen.length == 1 &&
-    k.k > k.input.length && !(k.construct == "pp" || k.construct == "pfe" || k.construct == "worker"))
+    k.k > k.input.length && !(k.construct == "pp" || k.construct == "pfe" || k.construct == "worker")))
 
 def outcomeOfObs (k : Kase) (o : Obs) : Outcome :=
   let blocked := k.behaviour == "blockedclose" || k.behaviour == "blockedcancel"
@@ -109,8 +116,15 @@ def protocolOk (k : Kase) (o : Obs) : Bool :=
   !(o.ends.contains "hang") && !(o.ends.contains "other") && o.idem != "0" && o.released != "0" && o.released != "unparked" &&
   (if k.behaviour == "close" || k.behaviour == "closecancel" then o.after == "eof" && o.idem == "1"
    else if k.behaviour == "cancel" then o.after == "ctx" || o.after == "eof" || o.after == "none"
+   else if k.behaviour == "closeduringfirst" then o.released == "1" && o.idem == "1" && o.after == "eof"
    else true) &&
-  (if k.behaviour == "exhaust" && (k.construct == "pp" || k.construct == "pfe" || k.construct == "worker") then o.ret == "nil" else true)
+  -- a rejected option set: nothing is delivered (`*_invalid_nothing_delivered`), the run ends with EOF / the
+  -- worker returns, and the output iterator's Close reports the configuration error
+  (!k.badopts || (o.seen.flatten.isEmpty &&
+     (if k.behaviour == "exhaust" then o.ends.all (· == "eof") &&
+        (if k.construct == "pp" || k.construct == "pfe" || k.construct == "worker" then true else o.closeerr == "invalid")
+      else true))) &&
+  (if k.behaviour == "exhaust" && !k.badopts && (k.construct == "pp" || k.construct == "pfe" || k.construct == "worker") then o.ret == "nil" else true)
 
 /-! ### exhaustive enumeration of the model's schedules (tiny instances) -/
 
@@ -133,13 +147,17 @@ partial def bfs {σ α : Type} [BEq σ] [Hashable σ] (e : Explore σ α) (fuel 
 
 /-- environment actions follow the harness' consumer: `close`/`cancel` happen exactly when the
     consumer has received k items and is between two ReadOne calls -/
-def envOk (beh : String) (k : Nat) (gotLen : Nat) (consIdle closed : Bool) (isClose isCancel : Bool) : Bool :=
-  if isClose then (beh == "close" || beh == "closecancel") && gotLen == k && consIdle
+def envOk (beh : String) (k : Nat) (gotLen : Nat) (consIdle closed : Bool) (isClose isCancel : Bool)
+    (consParked : Bool := false) : Bool :=
+  if isClose then ((beh == "close" || beh == "closecancel") && gotLen == k && consIdle) ||
+                  -- Close lands while the first ReadOne is between its closed-check and its park: the schedule
+                  -- class `cStart, close, …` (Close at k = 0 with the consumer already inside ReadOne)
+                  (beh == "closeduringfirst" && gotLen == 0 && consParked && !closed)
   else if isCancel then (beh == "cancel" && gotLen == k && consIdle) || (beh == "closecancel" && closed)
   else true
 
 def budgets (beh : String) : Nat × Nat :=
-  if beh == "close" then (1, 0) else if beh == "cancel" then (0, 1) else if beh == "closecancel" then (1, 1) else (0, 0)
+  if beh == "close" || beh == "closeduringfirst" then (1, 0) else if beh == "cancel" then (0, 1) else if beh == "closecancel" then (1, 1) else (0, 0)
 
 def cutRoundRobin (xs : List Nat) (n : Nat) : List (List Nat) :=
   (List.range n).map (fun i => (xs.zipIdx.filter (fun p => p.2 % n == i)).map (·.1))
@@ -148,7 +166,7 @@ def cutRoundRobin (xs : List Nat) (n : Nat) : List (List Nat) :=
     instance is not tiny / the behaviour is not enumerated -/
 def enumerate (k : Kase) (sh : Shape) : Option (List (List Nat)) :=
   let beh := k.behaviour
-  if !(beh == "exhaust" || beh == "close" || beh == "cancel" || beh == "closecancel") then none
+  if !(beh == "exhaust" || beh == "close" || beh == "cancel" || beh == "closecancel" || beh == "closeduringfirst") then none
   else if (k.construct == "dtmap" || k.construct == "adtmap") && beh != "exhaust" then none   -- map iteration order is not the input order
   else
   let (cb, kb) := budgets beh
@@ -158,7 +176,7 @@ def enumerate (k : Kase) (sh : Shape) : Option (List (List Nat)) :=
     let e : Explore Feeder.St Feeder.Act :=
       { step := Feeder.step c, terminal := fun s => s.terminal,
         acts := fun s => Feeder.allActs.filter (fun a =>
-          envOk beh k.k s.got.length (s.cons == .idle) s.closed (a == .close) (a == .cancel)) }
+          envOk beh k.k s.got.length (s.cons == .idle) s.closed (a == .close) (a == .cancel) (s.cons == .parked)) }
     let s0 := Feeder.init c k.input cb kb
     (bfs e 200000 [s0] (Std.HashSet.emptyWithCapacity.insert s0) []).map (fun ts => (ts.map (·.got)).eraseDups)
   | .fanIn c n sharedSrc =>
@@ -168,8 +186,8 @@ def enumerate (k : Kase) (sh : Shape) : Option (List (List Nat)) :=
     let e : Explore FanIn.St FanIn.Act :=
       { step := FanIn.step c, terminal := fun s => s.terminal,
         acts := fun s => (FanIn.acts n).filter (fun a =>
-          envOk beh k.k s.got.length (s.cons == .idle) s.closed (a == .close) (a == .cancel)) }
-    let s0 := FanIn.init privs shared cb kb
+          envOk beh k.k s.got.length (s.cons == .idle) s.closed (a == .close) (a == .cancel) (s.cons == .parked)) }
+    let s0 := FanIn.init c privs shared cb kb
     (bfs e 200000 [s0] (Std.HashSet.emptyWithCapacity.insert s0) []).map (fun ts => (ts.map (·.got)).eraseDups)
   | .fanOut c =>
     if k.input.length > 3 || c.n > 2 then none
@@ -178,7 +196,7 @@ def enumerate (k : Kase) (sh : Shape) : Option (List (List Nat)) :=
     let e : Explore FanOut.St FanOut.Act :=
       { step := FanOut.step c, terminal := fun s => s.terminal c,
         acts := fun s => (FanOut.acts c.n).filter (fun a =>
-          envOk beh k.k s.got.length (s.cons == .idle) s.closed (a == .close) (a == .cancel)) }
+          envOk beh k.k s.got.length (s.cons == .idle) s.closed (a == .close) (a == .cancel) (s.cons == .parked)) }
     let s0 := FanOut.init c k.input cb kb
     (bfs e 200000 [s0] (Std.HashSet.emptyWithCapacity.insert s0) []).map (fun ts => (ts.map (fun s => s.got ++ s.seen)).eraseDups)
 
